@@ -241,6 +241,13 @@ func c13GenRM(tag string, cs uint64) *metricdata.ResourceMetrics {
 	r := &vRand{s: cs}
 	rm := &metricdata.ResourceMetrics{}
 	switch tag {
+	case "fixed":
+		// one int64 gauge point whose encoded size does not depend on the seed (as_int is an sfixed64)
+		rm.Resource = resource.NewSchemaless(attribute.String("service.name", "fixed"))
+		rm.ScopeMetrics = []metricdata.ScopeMetrics{{Scope: instrumentation.Scope{Name: "lib"}, Metrics: []metricdata.Metrics{{Name: "fixed-" + c13Hex16(r.U64()),
+			Data: metricdata.Gauge[int64]{DataPoints: []metricdata.DataPoint[int64]{{Attributes: attribute.NewSet(attribute.String("k", c13Hex16(r.U64()))),
+				StartTime: time.Unix(1700000000, int64(r.Intn(1000000000))), Time: time.Unix(1700000001, int64(r.Intn(1000000000))), Value: int64(r.U64())}}}}}}}
+		return rm
 	case "wit-f17":
 		// minimal F17 witness: one exponential histogram point with ZeroThreshold 0.25
 		rm.ScopeMetrics = []metricdata.ScopeMetrics{{Metrics: []metricdata.Metrics{{Name: "m", Data: metricdata.ExponentialHistogram[float64]{
